@@ -20,6 +20,9 @@ def lisp_const(v):
     return "[" + " ".join(lisp_const(x) for x in v[1:]) + "]"
 
 
+FLAT = [False]      # when set, nested single-binding lets are printed as ONE let* binding vector
+
+
 def to_lisp(e):
     k = e[0]
     if k == "const":
@@ -35,6 +38,12 @@ def to_lisp(e):
     if k == "do":
         return f"(do {to_lisp(e[1])} {to_lisp(e[2])})"
     if k == "let":
+        if FLAT[0]:
+            binds, body = [], e
+            while body[0] == "let":
+                binds.append(f"{LOCALS[body[1]]} {to_lisp(body[2])}")
+                body = body[3]
+            return f"(let* [{' '.join(binds)}] {to_lisp(body)})"
         return f"(let* [{LOCALS[e[1]]} {to_lisp(e[2])}] {to_lisp(e[3])})"
     if k == "fn":
         name = (LOCALS[e[1]] + " ") if e[1] is not None else ""
@@ -233,6 +242,10 @@ def hazard_programs():
     out.append(("named-fn", INV(FN([N_], IF(P("lt", L(N_), K(3)), INV(L(F), P("inc", L(N_))), L(N_)), name=F), K(0))))
     out.append(("adder", LET(F, FN([A_B], FN([XQ], VEC(L(A_B), L(XQ)))), VEC(INV(INV(L(F), K(1)), K(2)), INV(INV(L(F), K(3)), K(4))))))
     out.append(("counter-closures", LET(F, FN([N_], FN([], L(N_))), LET(E, INV(L(F), K(1)), LET(V, INV(L(F), K(2)), VEC(INV(L(E)), INV(L(V))))))))
+    # one let* vector binding the same name twice with a closure in between (printed flat)
+    out.append(("let-rebind-closure", LET(A_B, K(1), LET(F, FN([], L(A_B)), LET(A_B, K(2), VEC(INV(L(F)), L(A_B)))))))
+    out.append(("let-rebind-closure2", LET(XQ, T(K(1)), LET(F, FN([V], VEC(L(XQ), L(V))), LET(XQ, P("inc", L(XQ)), INV(L(F), L(XQ)))))))
+    out.append(("let-rebind-chain", LET(I, K(1), LET(I, P("inc", L(I)), LET(F, FN([], L(I)), LET(I, P("inc", L(I)), VEC(INV(L(F)), L(I))))))))
     # evaluation order with compound forms among call arguments / collection literals / recur
     for a in (lambda k: T(K(k)), lambda k: LET(V, T(K(k)), L(V)), lambda k: IF(T(K(k)), T(K(k + 1)), K(None)),
               lambda k: TRY(T(K(k)), None, T(K(k + 1))), lambda k: LOOP([(V, T(K(k)))], L(V)), lambda k: DO(T(K(k)), K(k))):
